@@ -598,7 +598,7 @@ def replay_lzw(ck, rep, j, alpha, minbits, maps, batch, want, dev):
             codes = sr.lzw_real_codes([(c[0], c[1], "", 0) for c in cs], alpha, m)
             trail = b"".join(TRAIL_REAL[b] for b in r["tr"])
             enc = cd.lzw_pack(codes, r["ec"]) + trail
-            got, exc, ev = so.lzw_events(enc, r["ec"])
+            got, exc, ev = so.lzw_events(enc, r["ec"], direct=True)
             ok = judge(payload, got, Exception(exc) if exc else None, trail,
                        "LZW codes " + repr(codes[:24]) + " decoded to %r instead of %r", {"part": "lzw", "enc": enc, "expected": payload})
             if ok and hw and not trail and ([e["o"] for e in ev] != [e[3] for e in hw] or [e["c"] for e in ev] != codes):
@@ -920,6 +920,8 @@ def record_traces(ck, rep, dev, rng, chain_traces):
             enc = cd.lzw_encode(data, **kw)
             got, exc, ev = so.lzw_events(enc, ec)
             ck.case(1, ("B-lzw", origin, json.dumps(kw, sort_keys=True)))
+            if got == data and ec == 1:
+                got, exc, _e2 = so.lzw_events(enc, 1, direct=True)      # the decoder function called directly
             if got != data:
                 if ec == 0 and "LzwEarlyChangeIgnored" in dev and len(ev) > 250:
                     rep("dev:LzwEarlyChangeIgnored", "LZW stream of %s (%d bytes) written with /EarlyChange 0 decoded wrongly"
@@ -1017,6 +1019,37 @@ def record_traces(ck, rep, dev, rng, chain_traces):
                     if budget["lzw"] > 0 and len(ev) < (12000 if defer != 0 else 30000):
                         budget["lzw"] -= len(ev)
                         lzw.append({"ev": ev, "total": len(data), "ec": ec, "defer": defer != 0, "origin": origin})
+    # ---- PNG predictors of every depth x 1..4 colours through PDFs (Flate + /DecodeParms, direct or indirect)
+    batch = sr.PdfBatch(size=300)
+    cnt = {"declared_unsupported": 0, "drift": 0}
+    npdf = [0]
+
+    def on_pred(tag, exp, got, exc, objid, pdf):
+        (c, k, b, types) = tag
+        npdf[0] += 1
+        judge_predictor(rep, dev, "png", c, k, b, types, exp, got, exc, None, "Flate stream with /Predictor in a PDF, %d bits" % b,
+                        {"part": "pdf", "pdf": pdf, "objid": objid, "expected": exp}, cnt)
+
+    cols = (3, 13) if ck.tier == "quick" else (1, 2, 3, 5, 8, 13, 31)
+    pats = ((0, 1, 2, 3, 4), (4, 3, 2, 1, 0)) if ck.tier == "quick" else tuple(tuple((t0 + q * r_) % 5 for r_ in range(5))
+                                                                                for t0 in range(5) for q in (0, 1, 2))
+    for b in (1, 2, 4, 16, 8):
+        for c in (1, 2, 3, 4):
+            for k in cols:
+                for pi, types in enumerate(pats):
+                    rlen = cd.row_length(c, k, b)
+                    x = bytes(rng.choice((0, 1, 127, 128, 255, rng.randrange(256))) for _ in range(rlen * 5))
+                    enc = cd.png_predict(x, c, k, b, list(types))
+                    parm = {"Predictor": 10 + types[0], "Colors": c, "Columns": k, "BitsPerComponent": b}
+                    if pi % 2:
+                        parm = batch.alloc(parm)
+                    batch.add({"Filter": Name("FlateDecode"), "DecodeParms": parm}, zlib.compress(enc), x, (c, k, b, types))
+                    ck.case(1, ("B-pred-pdf", b, c, k, types))
+                    if batch.full():
+                        batch.run(on_pred)
+    batch.run(on_pred)
+    ck.extra["png_predictor_through_pdf"] = {"streams": npdf[0], "declared_unsupported_by_the_code": cnt["declared_unsupported"],
+                                             "depths": [1, 2, 4, 8, 16], "colors": [1, 2, 3, 4], "columns": list(cols)}
     # ---- PNG predictor inputs that touch the known deviations, at real scale (classified, not traced)
     for (c, k, b, t0) in ((3, 40, 8, 2), (3, 40, 8, 3), (4, 25, 8, 4), (1, 10, 1, 0), (1, 16, 1, 1)):
         rlen = cd.row_length(c, k, b)
